@@ -65,6 +65,7 @@ class Layer:
         self.notes = []
         self.params = {}
         self.wall_s = 0.0
+        self.supplementary = False  # a non-exhaustive side pass (e.g. -race): does not decide 'exhaustive'
 
     def cap(self, what):
         self.exhaustive = False
@@ -109,7 +110,7 @@ class Layer:
         d = dict(layer=self.name, rule=self.rule, evaluations=self.evaluations,
                  distinct_nontrivial=self.nontrivial, states=self.states, transitions=self.transitions,
                  traces_validated_against_impl=self.traces or self.evaluations,
-                 exhaustive=self.exhaustive, caps=self.caps, wall_s=round(self.wall_s, 2),
+                 exhaustive=self.exhaustive, supplementary=self.supplementary, caps=self.caps, wall_s=round(self.wall_s, 2),
                  counters=self.counters, distinct_outcomes=len(self.outcomes),
                  violation_classes=self.vclasses)
         if self.outcomes and len(self.outcomes) <= 40:
@@ -305,7 +306,7 @@ class Check:
         for L in self.layers:
             for s in L.samples[:3]:
                 samples.append({"layer": L.name, "case": s})
-        exhaustive = all(L.exhaustive for L in self.layers)
+        exhaustive = all(L.exhaustive for L in self.layers if not L.supplementary)
         cov = dict(states=max(states, 1), transitions=max(trans, 1), traces_validated_against_impl=traces,
                    samples=samples or [{"note": "no sample recorded"}],
                    evaluations=max(ev, 1), distinct_nontrivial=nt,
